@@ -351,6 +351,7 @@ class HistogramND(HistogramBase):
             weight = int(weight)  # weight**2 must not wrap around in a narrow type
         elif isinstance(weight, np.floating) and weight.dtype.itemsize < 8:
             weight = float(weight)  # (nor be accumulated in half / single precision)
+        weight2 = weight**2  # (an absurd weight fails here, before anything is changed)
         self._coerce_dtype(type(weight))
         value_array = np.asarray(value)
         for i, binning in enumerate(self._binnings):
@@ -363,7 +364,7 @@ class HistogramND(HistogramBase):
                 self._missed += weight
         else:
             # (the square first: if it does not fit, nothing has been changed yet)
-            self._errors2[ixbin] += weight**2
+            self._errors2[ixbin] += weight2
             self._frequencies[ixbin] += weight
         return ixbin
 
